@@ -68,6 +68,10 @@ def do_call(ex, st, e):
         kwargs[k.arg] = ex.ev(st, k.value)
     if isinstance(o, BoundMethod):
         return method_call(ex, st, o, args, kwargs, e)
+    from .stmts import LocalFn
+
+    if isinstance(o, LocalFn):
+        return inline_local(ex, st, o, args, kwargs, e)
     if isinstance(o, LemmaSrc):
         return lemma_call(ex, st, o, args, e)
     if isinstance(o, SpecFun):
@@ -166,6 +170,26 @@ def ghost_call(ex, st, name, e):
         return mk_int(ctx.field_array(st, "len", AII)[args[0].z])
     if name == "field":
         return ex.load_field(st, args[0], args[1].x, e)
+    if name in ("lo_has", "lo_row", "lo_get", "gheight", "gwidth"):
+        from .ext import ORIENTS, lo_arrays
+
+        if name in ("gheight", "gwidth"):
+            return mk_int(ctx.field_array(st, "g_h" if name == "gheight" else "g_w")[args[0].z])
+        row, has, val = lo_arrays(ctx, st)
+        m = args[0].z
+        lv = as_int(ctx, st, args[1], e)
+        if name == "lo_row":
+            return mk_bool(row[m][lv])
+        if args[2].x is not None:
+            oid = ORIENTS[args[2].x]
+        else:
+            oid = z3.IntVal(-1)
+            for oname, oi in ORIENTS.items():
+                oid = z3.If(args[2].z == ctx.strid(oname), z3.IntVal(oi), oid)
+        if name == "lo_has":
+            return mk_bool(z3.And(row[m][lv], has[m][lv][oid]))
+        kind = (args[0].x or "lomap:int").split(":", 1)[1]
+        return mk_int(val[m][lv][oid]) if kind == "int" else mk_ref(val[m][lv][oid], kind)
     if name == "is_fresh":
         # allocated during the call: distinct from every object that existed on entry and, when a callee's
         # postcondition is assumed at a call site, from everything the caller has allocated so far
@@ -317,6 +341,10 @@ def builtin_call(ex, st, o, args, kwargs, e):
             return mk_int(len(a.z))
         if a.k == "conc":
             return mk_int(len(a.z))
+        if a.k == "ref" and str(a.x).startswith("grid"):
+            return mk_int(ctx.field_array(st, "g_h")[a.z])
+        if a.k == "gridrow":
+            return mk_int(ctx.field_array(st, "g_w")[a.z[0]])
         if a.k == "ref":
             ln = ctx.field_array(st, "len", AII)[a.z]
             ctx.assume(st, ln >= 0)
@@ -537,6 +565,53 @@ def inline_sidecar(ex, st, fn, args, kwargs, e):
     return rv
 
 
+def inline_local(ex, st, lf, args, kwargs, e):
+    """Call of a nested function: its body runs in the caller's frame and environment (closure variables visible)."""
+    from .stmts import assigned_names
+
+    ctx = ex.ctx
+    node = lf.node
+    names = [a.arg for a in node.args.args]
+    if len(args) != len(names) or kwargs:
+        raise Unsupported("call of local function %s" % node.name, e)
+    fr_outer = ctx.frames[-1]
+    fr = Frame(fr_outer.unit + "." + node.name, fr_outer.modname, fr_outer.cls)
+    body = frontend.strip_docstring(node)
+    fr.locals_assigned = assigned_names(body) | set(names)
+    fr.sidecar_globals = fr_outer.sidecar_globals
+    fr.ghost_globals = getattr(fr_outer, "ghost_globals", None)
+    fr.loop_ordinals = {}
+    fr.invariants = {}
+    fr.old_state = fr_outer.old_state
+    inner = st.fork()
+    for n, a in zip(names, args):
+        inner.env[n] = a
+        inner.defd[n] = z3.BoolVal(True)
+    ctx.frames.append(fr)
+    ctx.inline_depth += 1
+    try:
+        ex.run_block(inner, body)
+    finally:
+        ctx.inline_depth -= 1
+        ctx.frames.pop()
+    outs = []
+    if not inner.dead:
+        fr.returns.append((inner, NONE))
+    for (rs, rv) in fr.returns:
+        rs.env = dict(st.env)
+        rs.defd = dict(st.defd)
+        rs.env["__ret"] = rv
+        rs.defd["__ret"] = z3.BoolVal(True)
+        outs.append(rs)
+    if not outs:
+        st.dead = True
+        return NONE
+    merge_states(ctx, outs, st)
+    rv = st.env.pop("__ret")
+    st.defd.pop("__ret", None)
+    return rv
+
+
 def fresh_of_type(ex, t, name):
     ctx = ex.ctx
     if t == "int":
@@ -560,7 +635,7 @@ def fresh_of_type(ex, t, name):
         return mk_conc(cls)
     if t.startswith("opaque"):
         return mk_ref(ctx.fresh(name), t)
-    if t in ("dict", "file", "opaque", "bytearray") or t.startswith(("list", "obj:", "dict:")):
+    if t in ("dict", "file", "opaque", "bytearray", "grid") or t.startswith(("list", "obj:", "dict:", "lomap")):
         return mk_ref(ctx.fresh(name), t)
     raise Unsupported("type %s" % t)
 
@@ -598,6 +673,14 @@ def eval_modifies(ex, st, contract, env, with_cond=False):
             elif isinstance(node, ast.Call) and isinstance(node.func, ast.Name) and node.func.id == "length":
                 base = ex.ev(tmp, node.args[0])
                 items.append((base.z, "len"))
+            elif isinstance(node, ast.Call) and isinstance(node.func, ast.Name) and node.func.id == "gcontent":
+                base = ex.ev(tmp, node.args[0])
+                items.append((base.z, "g_val"))
+            elif isinstance(node, ast.Call) and isinstance(node.func, ast.Name) and node.func.id == "lomap":
+                base = ex.ev(tmp, node.args[0])
+                items.extend([(base.z, "lo_row"), (base.z, "lo_has"), (base.z, "lo_val")])
+            elif isinstance(node, ast.Call) and isinstance(node.func, ast.Name) and node.func.id == "all_grids":
+                items.append((None, "g_val"))  # contents of 2-D arrays (never their shapes)
             else:
                 raise Unsupported("modifies clause %s" % txt)
             for (r, f) in items:
@@ -622,6 +705,12 @@ def contract_call(ex, st, contract, args, kwargs, e):
     ex.reg.used_contracts.add(contract.fq)
     fsrc = frontend.get_function(contract.fq)
     va = fsrc.node.args.vararg.arg if fsrc.node.args.vararg else None
+    # defaults of opaque parameters are not evaluated (e.g. any_value=AnyValue())
+    pnames = [p for p, _ in fsrc.params()]
+    kwargs = dict(kwargs)
+    for i, (pn, d) in enumerate(fsrc.params()):
+        if d is not None and i >= len(args) and pn not in kwargs and str(contract.args.get(pn, "")).startswith("opaque"):
+            kwargs[pn] = mk_ref(ctx.fresh("default_" + pn), contract.args[pn])
     env = bind_params(ex, st, fsrc.params(), fsrc.module, args, kwargs, e, contract.fq, vararg=va)
     env.pop(va, None)
     # coerce concrete constants
@@ -663,6 +752,9 @@ def contract_call(ex, st, contract, args, kwargs, e):
         post = st.fork()
         for (refz, field, cond) in mods:
             arr = ctx.field_array(post, field, None)
+            if refz is None:
+                post.heap[field] = ctx.fresh("Hc_" + field, arr.sort())
+                continue
             fv = ctx.fresh("cv_" + field, arr.sort().range())
             if cond is not None:
                 fv = z3.If(cond, fv, arr[refz])
@@ -807,6 +899,10 @@ def callee_effects(ex, st, call, assigned, stable_ref):
                     out.extend((None, fl) for fl in ex.field_arrays_of(key))
                 elif isinstance(node, ast.Attribute):
                     out.extend((None, fl) for fl in ex.field_arrays_of(node.attr))
+                elif isinstance(node, ast.Call) and getattr(node.func, "id", "") in ("gcontent", "all_grids"):
+                    out.append((None, "g_val"))
+                elif isinstance(node, ast.Call) and getattr(node.func, "id", "") == "lomap":
+                    out.extend([(None, "lo_row"), (None, "lo_has"), (None, "lo_val")])
                 else:
                     out.append((None, "elem"))
                     out.append((None, "len"))
